@@ -458,7 +458,7 @@ def run(ck):
     import random
     from concurrent.futures import ThreadPoolExecutor
     rrng = random.Random(rng.random())
-    rc_cases = [go_conc_case(gen_conc(rrng, ck.n(40, 120), big=True)) for _ in range(ck.n(30, 300))]
+    rc_cases = [go_conc_case(gen_conc(rrng, ck.n(40, 60), big=True)) for _ in range(ck.n(30, 120))]
     if suspects:
         for _ in range(20):
             c = gen_conc(rrng, ck.n(100, 300), big=True)
@@ -466,7 +466,7 @@ def run(ck):
             c["threads"] = [[gen_op(rrng, mix) for _ in range(6)] for _ in range(4)]
             c["base"] = "simple"
             rc_cases.append(go_conc_case(c))
-    rp_cases = [gen_par(rrng, ck.n(4, 10)) for _ in range(ck.n(12, 120))]
+    rp_cases = [gen_par(rrng, ck.n(4, 8)) for _ in range(ck.n(12, 60))]
 
     def race_job():
         _, a, b = run_bin(race_exe, "c18_conc", rc_cases)
@@ -483,7 +483,7 @@ def run(ck):
     ncorpus = len(corpus)
 
     # 3. sequential correspondence: set machine vs the real stores behind the wrapper
-    for _ in range(ck.n(300, 3000)):
+    for _ in range(ck.n(300, 2000)):
         seq_cases.append(gen_seq(rng))
     nexh = 0
     if not ck.quick:
@@ -529,8 +529,8 @@ def run(ck):
 
     ck.log("sequential correspondence judged: %d disagreements" % seq_dis)
     # 4. RUNTIME PART (not a proof): recorded concurrent histories judged by lin_check
-    for _ in range(ck.n(60, 600)):
-        conc_cases.append(gen_conc(rng, ck.n(60, 150)))
+    for _ in range(ck.n(60, 300)):
+        conc_cases.append(gen_conc(rng, ck.n(60, 100)))
     if suspects:
         ck.log("lock table differs from the expected discipline for %s: aiming the stress at them" % suspects)
         for _ in range(ck.n(40, 200)):
@@ -563,7 +563,7 @@ def run(ck):
 
     ck.log("histories judged: %d runs, %d distinct, %d with overlap" % (stats["histories"], ndistinct, stats["overlapping"]))
     # 4b. the judge itself: lin_check vs the brute-force oracle on synthetic histories
-    synth = [synth_history(rng) for _ in range(ck.n(300, 4000))]
+    synth = [synth_history(rng) for _ in range(ck.n(300, 2000))]
     sv = ck.run_coq("C18", "judge_hist", [cq_hist(h) for h in synth], shard=max(150, len(synth) // 6 + 1), tag="syn")
     synth_rejected = 0
     for h, v in zip(synth, sv):
@@ -574,7 +574,7 @@ def run(ck):
     ck.log("judge self-test: %d synthetic histories, %d non-linearizable, lin_check agrees with the oracle on all"
            % (len(synth), synth_rejected))
     # 5. RUNTIME PART: parallel parse/analyse/evaluate vs alone
-    par_cases = [gen_par(rng, ck.n(8, 20)) for _ in range(ck.n(40, 400))]
+    par_cases = [gen_par(rng, ck.n(8, 15)) for _ in range(ck.n(40, 200))]
     pouts = ck.run_go("c18_par", [{"programs": c["programs"], "reps": c["reps"]} for c in par_cases])
     par_evals, par_diff, par_err = 0, 0, 0
     for c, o in zip(par_cases, pouts):
